@@ -838,6 +838,13 @@ class Model:
                 self.classes.add('link-same-name-other-dir')
         newpath = join(parents[tns], nm[tns])
         kw = {'boot_catalog_old': True, {'iso': 'iso_new_path', 'jol': 'joliet_new_path', 'udf': 'udf_new_path'}[tns]: newpath}
+        catnames = sorted(self.blobs[-1].names) if -1 in self.blobs else []
+        if op.get('byname') and catnames:
+            # the catalogue addressed like any other file: by one of the paths it has
+            ons, opath = catnames[(op['byname'] - 1) % len(catnames)]
+            del kw['boot_catalog_old']
+            kw[{'iso': 'iso_old_path', 'jol': 'joliet_old_path', 'udf': 'udf_old_path'}[ons]] = opath
+            self.classes.add('catalog-hard-link-by-path')
         if tns == 'iso' and self.rr:
             kw['rr_name'] = nm['rr']
 
@@ -923,7 +930,7 @@ class Model:
         if not self.rr or self.reloc is not None:
             raise Skip('cannot set relocated name')
         name = names.iso_dir(op['n'], self.level, op.get('sz', 0), op.get('lead', 0), op.get('salt', 0), 150)
-        rrn = names.rr_name(op['n'], op.get('sz', 0) % 3, op.get('lead', 0), op.get('salt', 0))
+        rrn = names.rr_name(op['n'], op['rsz'] if 'rsz' in op else op.get('sz', 0) % 3, op.get('lead', 0), op.get('salt', 0))     # (`rsz`: also names that need a continuation area)
         if '/' + name in self.t['iso']:
             raise Skip('exists')
 
